@@ -449,6 +449,16 @@ func genC04(tier string, rng *Rng) {
 	}
 	one := func(kind, l string) { emitC04(kind, []string{l}) }
 
+	// (0a) document lines of every size class (20 bytes ... 20 kB, around 160 / 255 / 256 / 1024), five keys, each
+	// decoded several times in a row so that some calls fall on the debug-on tick
+	for _, key := range []string{"_panelTopology_HWC=", "_panelTopology_svgbase=", "_burninProfile=", "_calibrationProfile=", "_defaultCalibrationProfile="} {
+		for _, n := range []int{20, 159, 160, 161, 255, 256, 257, 1023, 1024, 5000, 20000} {
+			doc := "{\"k\":\"" + strings.Repeat("x", n) + "\"}"
+			for rep := 0; rep < 5; rep++ {
+				one("long-documents", key+doc[:n])
+			}
+		}
+	}
 	// (0) list-valued lines: EVERY sequence of up to four items over {empty, blank, plain, padded, tab-padded}
 	// (an empty item followed by an empty or padded one, doubled and trailing separators, ...)
 	{
